@@ -23,6 +23,8 @@ import ScalesModel.Adapter.Uri
 import ScalesModel.Adapter.TimerQueue
 import ScalesModel.Adapter.MuxCodec
 import ScalesModel.Adapter.ThriftCodec
+import ScalesModel.Adapter.Serial
+import ScalesModel.Adapter.MuxT
 open Scales
 
 def components : List Comp := [
@@ -43,7 +45,9 @@ def components : List Comp := [
   ⟨"uri", Scales.Uri.comp.run⟩,
   ⟨"timerq", Scales.TimerQ.comp.run⟩,
   ⟨"muxcodec", Scales.MuxCodec.comp.run⟩,
-  ⟨"thriftcodec", Scales.ThriftCodec.comp.run⟩
+  ⟨"thriftcodec", Scales.ThriftCodec.comp.run⟩,
+  ⟨"serial", Scales.Serial.comp.run⟩,
+  ⟨"muxt", Scales.MuxT.comp.run⟩
 ]
 
 structure CaseAcc where
